@@ -259,3 +259,57 @@ def delim : Bytes → Bool
   | c :: _ => isWsByte c || c = 44 || c = 93 || c = 125
 
 end IwModel.Json
+
+namespace IwModel.Json
+
+/-! ### documents handed to the printer -/
+
+mutual
+  /-- nesting depth of a value -/
+  def depthV : JVal → Nat
+    | .arr xs => depthL xs + 1
+    | .obj ms => depthM ms + 1
+    | _ => 0
+  def depthL : List JVal → Nat
+    | [] => 0
+    | x :: r => max (depthV x) (depthL r)
+  def depthM : List (Bytes × JVal) → Nat
+    | [] => 0
+    | (_, x) :: r => max (depthV x) (depthM r)
+end
+
+def bytesOk (s : Bytes) : Bool := s.all (· < 256)
+
+mutual
+  /-- what a `struct jbl_node` tree can hold: int64 integers, byte strings, keys that are C strings -/
+  def printable : JVal → Bool
+    | .int i => -(2 ^ 63 : Int) ≤ i && i < (2 ^ 63 : Int)
+    | .str s => bytesOk s
+    | .arr xs => printableL xs
+    | .obj ms => printableM ms
+    | _ => true
+  def printableL : List JVal → Bool
+    | [] => true
+    | x :: r => printable x && printableL r
+  def printableM : List (Bytes × JVal) → Bool
+    | [] => true
+    | (k, x) :: r => bytesOk k && !k.contains 0 && printable x && printableM r
+end
+
+mutual
+  /-- the document with every double replaced by the value of the number token `N b` printed for it;
+      everything else unchanged -/
+  def reval (D : Bytes → Nat) (N : Nat → Cst) : JVal → JVal
+    | .f64 b => (N b).value D
+    | .arr xs => .arr (revalL D N xs)
+    | .obj ms => .obj (revalM D N ms)
+    | v => v
+  def revalL (D : Bytes → Nat) (N : Nat → Cst) : List JVal → List JVal
+    | [] => []
+    | x :: r => reval D N x :: revalL D N r
+  def revalM (D : Bytes → Nat) (N : Nat → Cst) : List (Bytes × JVal) → List (Bytes × JVal)
+    | [] => []
+    | (k, x) :: r => (k, reval D N x) :: revalM D N r
+end
+
+end IwModel.Json
